@@ -448,3 +448,49 @@ package builtInFunctions
 //@   ensures[C10] err == nil && isNil(acntDst) && !isSC(snd) ==> out.OutputAccounts == nil
 //@   ensures[C15] err == nil ==> WFvalues(St)
 //@   modifies St, failed, readFailed, loadFailed
+
+// ---- ESDTNFTTransfer --------------------------------------------------------------------------------------------------------------------
+// Sender-side execution: CallerAddr == RecipientAddr, destination = Arguments[3].
+// Destination-side execution: acntSnd absent, Arguments[3] = encoded record emitted by a sender-side
+// execution (A12: it carries a value and metadata).
+
+//@ func (e *esdtNFTTransfer) ProcessBuiltinFunction
+//@   params e, acntSnd, acntDst, vmInput
+//@   results out, err
+//@   view tok = seq(vmInput.Arguments[0])
+//@   view n = beval(seq(vmInput.Arguments[1])) % 18446744073709551616
+//@   view q = beval(seq(vmInput.Arguments[2]))
+//@   view snd = seq(vmInput.CallerAddr)
+//@   view rcv = seq(vmInput.RecipientAddr)
+//@   view a3 = seq(vmInput.Arguments[3])
+//@   view old0 = St[seq(vmInput.CallerAddr)][Knft(seq(vmInput.Arguments[0]), beval(seq(vmInput.Arguments[1])) % 18446744073709551616)]
+//@   view senderSide = seq(vmInput.CallerAddr) == seq(vmInput.RecipientAddr)
+//@   requires e != nil && locksFree()
+//@   requires !isNil(e.marshalizer) && !isNil(e.pauseHandler) && !isNil(e.payableHandler) && !isNil(e.shardCoordinator) && !isNil(e.accounts) && esdtPrefix(e.keyPrefix)
+//@   requires sndIsCaller(acntSnd, vmInput) && dstIsRecipient(acntDst, vmInput) && WFvalues(St)
+//@   requires costBound(e.funcGasCost) && costBound(e.gasConfig.DataCopyPerByte)
+//@   requires vmInput != nil && len(vmInput.Arguments) >= 4 && !senderSide ==> dHasMeta(a3) && !dValNil(a3) && dVal(a3) > 0
+//@   requires vmInput != nil && senderSide ==> !isNil(acntSnd)
+//@   ensures[C11] shape(out, err)
+//@   ensures[C17] err == nil ==> failed == old(failed)
+//@   ensures[C06] err == nil && senderSide ==> onlyRcpt(out, a3) && out.GasRemaining + fwdGas(out, a3) <= vmInput.GasProvided
+//@   ensures[C06] err == nil && !senderSide ==> onlyRcpt(out, rcv) && out.GasRemaining + fwdGas(out, rcv) <= vmInput.GasProvided
+//@   ensures[C03] err == nil && !senderSide ==> isNil(acntSnd)
+//@   ensures[C09] err == nil && senderSide ==> len(a3) == len(snd) && a3 != snd && shardOf(a3) != 4294967295
+//@   ensures[C09] err == nil && senderSide && shardOf(a3) == selfShard && mustVerify(vmInput, 4) ==> payable(a3)
+//@   ensures[C09] err == nil && !senderSide && mustVerify(vmInput, 4) ==> payable(rcv)
+//@   ensures[C01,C02] err == nil && !readFailed && senderSide ==> n > 0 && len(old0) != 0 && val(old(St), snd, Knft(tok, n)) >= q
+//@   ensures[C01,C02] err == nil && !readFailed && senderSide && dMNonce(old0) == n ==> val(St, snd, Knft(tok, n)) == val(old(St), snd, Knft(tok, n)) - q
+//@   ensures[C01,C02] err == nil && !readFailed && senderSide && dMNonce(old0) == n && shardOf(a3) == selfShard ==> val(St, a3, Knft(tok, n)) == val(old(St), a3, Knft(tok, n)) + q && onlyChanged2(St, old(St), snd, Knft(tok, n), a3, Knft(tok, n))
+//@   ensures[C01,C02] err == nil && !readFailed && senderSide && dMNonce(old0) == n && shardOf(a3) != selfShard ==> onlyChanged(St, old(St), snd, Knft(tok, n))
+//@   ensures[C01,C02,kf:F8b] err == nil && !readFailed && senderSide && dMNonce(old0) != n ==> val(St, snd, Knft(tok, n)) == val(old(St), snd, Knft(tok, n)) - q
+//@   ensures[C01,C02] err == nil && !readFailed && !senderSide ==> val(St, rcv, Knft(tok, dMNonce(a3))) == val(old(St), rcv, Knft(tok, dMNonce(a3))) + dVal(a3) && onlyChanged(St, old(St), rcv, Knft(tok, dMNonce(a3)))
+//@   ensures[C05] err == nil && !readFailed && senderSide ==> onlyChanged2(St, old(St), snd, Knft(tok, dMNonce(old0)), a3, Knft(tok, dMNonce(old0)))
+//@   ensures[C08] err == nil && !readFailed && senderSide && dMNonce(old0) == n && shardOf(a3) == selfShard && val(old(St), a3, Knft(tok, n)) + q > 0 ==> sameMeta(St[a3][Knft(tok, n)], old0)
+//@   ensures[C08] err == nil && !readFailed && senderSide && shardOf(a3) == selfShard && len(old(St)[a3][Knft(tok, dMNonce(old0))]) != 0 && dHasMeta(old(St)[a3][Knft(tok, dMNonce(old0))]) ==> dMHash(old(St)[a3][Knft(tok, dMNonce(old0))]) == dMHash(old0)
+//@   ensures[C08] err == nil && !readFailed && !senderSide && val(old(St), rcv, Knft(tok, dMNonce(a3))) + dVal(a3) > 0 ==> sameMeta(St[rcv][Knft(tok, dMNonce(a3))], a3)
+//@   ensures[C08] err == nil && !readFailed && !senderSide && len(old(St)[rcv][Knft(tok, dMNonce(a3))]) != 0 && dHasMeta(old(St)[rcv][Knft(tok, dMNonce(a3))]) ==> dMHash(old(St)[rcv][Knft(tok, dMNonce(a3))]) == dMHash(a3)
+//@   ensures[C04] err == nil && !readFailed && !vmInput.ReturnCallAfterError && senderSide && snd != ESDTSC() ==> !frozen(old(St), snd, Knft(tok, n)) && !paused(old(St), Kesdt(tok))
+//@   ensures[C04] err == nil && !readFailed && !vmInput.ReturnCallAfterError && !senderSide && rcv != ESDTSC() ==> !frozen(old(St), rcv, Knft(tok, dMNonce(a3))) && !paused(old(St), Kesdt(tok)) && !paused(old(St), Knft(tok, dMNonce(a3)))
+//@   ensures[C15] err == nil ==> WFvalues(St)
+//@   modifies St, failed, readFailed, loadFailed
